@@ -5,8 +5,10 @@ import (
 	"fmt"
 	"os"
 
+	"github.com/spq/pkappa2/verifx/c03"
 	"github.com/spq/pkappa2/verifx/c17"
 	"github.com/spq/pkappa2/verifx/c18"
+	"github.com/spq/pkappa2/verifx/c19"
 )
 
 func main() {
@@ -20,8 +22,12 @@ func main() {
 	switch *prop {
 	case "C17":
 		code = c17.Run(*tier)
+	case "C03":
+		code = c03.Run(*tier)
 	case "C18":
 		code = c18.Run(*tier)
+	case "C19":
+		code = c19.Run(*tier)
 	default:
 		fmt.Fprintf(os.Stderr, "unknown property %q\n", *prop)
 		code = 2
